@@ -25,12 +25,58 @@ pub(crate) fn synthesize_expr(
     current: &mut HashMap<air::VarId, Vec<NetId>>,
     target_width: usize,
 ) -> Result<Vec<NetId>, SynthesizerError> {
+    // `'0` / `'1` / `'x` / `'z` are width-less sentinels (`Value::width() == 0`)
+    // that fill the context width; as a plain u64 `'1` would become the value 1.
+    if let Expression::Term(factor) = expr
+        && let Factor::Value(ct) = factor.as_ref()
+        && let Ok(value) = ct.get_value()
+        && value.width() == 0
+    {
+        let filled = value.expand(target_width.max(1), false);
+        return Ok(value_to_nets(&filled, target_width));
+    }
     if let Some(constant) = try_constant(expr) {
         return Ok(build_constant(constant, target_width));
     }
 
     let raw = synth_raw(ctx, expr, current, target_width)?;
     Ok(resize(raw, target_width, expr_signed(expr)))
+}
+
+/// Width an operand needs so that no significant bit is lost: the analyzer's
+/// self-determined width, or for a constant the bits of its value (an unsized
+/// literal is 32 bits wide by type, which would blow up dividers for nothing).
+fn natural_width(expr: &Expression, fallback: usize) -> usize {
+    if let Some(c) = try_constant(expr) {
+        return ((u64::BITS - c.leading_zeros()) as usize).max(1);
+    }
+    expr.comptime().r#type.total_width().unwrap_or(fallback).max(1)
+}
+
+/// An index / select expression is self-determined: evaluate it at its own
+/// width (not at `idx_bits`, which would truncate the operands of `%`, `/`,
+/// `>>` inside it) and keep the low `idx_bits` bits of the result.
+pub(crate) fn synthesize_index(
+    ctx: &mut ConvContext,
+    expr: &Expression,
+    current: &mut HashMap<air::VarId, Vec<NetId>>,
+    idx_bits: usize,
+) -> Result<Vec<NetId>, SynthesizerError> {
+    let w = idx_bits.max(natural_width(expr, idx_bits));
+    let mut nets = synthesize_expr(ctx, expr, current, w)?;
+    nets.truncate(idx_bits);
+    Ok(nets)
+}
+
+/// A condition is true when the expression is non-zero, not when its bit 0 is set.
+pub(crate) fn synthesize_condition(
+    ctx: &mut ConvContext,
+    cond: &Expression,
+    current: &mut HashMap<air::VarId, Vec<NetId>>,
+) -> Result<NetId, SynthesizerError> {
+    let w = natural_width(cond, 1);
+    let bits = synthesize_expr(ctx, cond, current, w)?;
+    Ok(if bits.len() == 1 { bits[0] } else { reduce_or(ctx, &bits) })
 }
 
 fn expr_signed(expr: &Expression) -> bool {
@@ -149,7 +195,7 @@ fn synth_raw(
             if let Some(out) = try_fold_case_ternary(ctx, expr, current, ctx_width)? {
                 return Ok(out);
             }
-            let sel = synthesize_expr(ctx, cond, current, 1)?[0];
+            let sel = synthesize_condition(ctx, cond, current)?;
             let true_nets = synthesize_expr(ctx, a, current, ctx_width)?;
             let false_nets = synthesize_expr(ctx, b, current, ctx_width)?;
             let mut out = Vec::with_capacity(ctx_width);
@@ -393,7 +439,7 @@ fn synth_factor(
                         )));
                     }
                     let idx_bits = arith::index_bits_for(num_elements);
-                    let idx_nets = synthesize_expr(ctx, &index.0[0], current, idx_bits)?;
+                    let idx_nets = synthesize_index(ctx, &index.0[0], current, idx_bits)?;
                     let elements: Vec<Vec<NetId>> = (0..num_elements)
                         .map(|k| src_nets[k * scalar_width..(k + 1) * scalar_width].to_vec())
                         .collect();
@@ -475,7 +521,7 @@ fn synth_factor(
             // Must match the stride `eval_value` derives for a constant index.
             let (num_elements, stride) = dynamic_select_shape(var_type, element_nets.len());
             let idx_bits = arith::index_bits_for(num_elements);
-            let idx_nets = synthesize_expr(ctx, &select.0[0], current, idx_bits)?;
+            let idx_nets = synthesize_index(ctx, &select.0[0], current, idx_bits)?;
             let elements: Vec<Vec<NetId>> =
                 element_nets.chunks(stride).map(|c| c.to_vec()).collect();
             Ok(arith::dynamic_mux_tree(ctx, &elements, &idx_nets))
@@ -520,7 +566,7 @@ fn read_ram(
     }
 
     let idx_bits = arith::index_bits_for(cand.depth);
-    let addr = synthesize_expr(ctx, idx_expr, current, idx_bits)?;
+    let addr = synthesize_index(ctx, idx_expr, current, idx_bits)?;
     let port_idx = ctx.ram_builders.get(id).map(|b| b.reads.len()).unwrap_or(0);
     let data: Vec<NetId> = (0..cand.width)
         .map(|bit| {
@@ -704,15 +750,26 @@ fn synth_binary(
             Ok(resize(vec![result], result_width, false))
         }
         Op::LogicShiftL | Op::LogicShiftR | Op::ArithShiftL | Op::ArithShiftR => {
-            let xs = synthesize_expr(ctx, x, current, result_width)?;
-            let signed_ext = matches!(op, Op::ArithShiftR);
-            if let Some(amount) = try_constant(y).map(|n| n as usize) {
-                Ok(arith::constant_shift(ctx, &xs, op, amount, signed_ext))
+            // A right shift moves high operand bits into the result, so the
+            // operand must not be truncated to a narrower target first.
+            let right = matches!(op, Op::LogicShiftR | Op::ArithShiftR);
+            let w = if right {
+                result_width.max(natural_width(x, result_width))
+            } else {
+                result_width
+            };
+            let xs = synthesize_expr(ctx, x, current, w)?;
+            // `>>>` is arithmetic only for a signed operand (IEEE 1800 11.4.10).
+            let signed_ext = matches!(op, Op::ArithShiftR) && expr_signed(x);
+            let mut out = if let Some(amount) = try_constant(y).map(|n| n as usize) {
+                arith::constant_shift(ctx, &xs, op, amount, signed_ext)
             } else {
                 let shift_width = y.comptime().r#type.total_width().unwrap_or(0).max(1);
                 let amount_nets = synthesize_expr(ctx, y, current, shift_width)?;
-                Ok(arith::barrel_shift(ctx, &xs, &amount_nets, op, signed_ext))
-            }
+                arith::barrel_shift(ctx, &xs, &amount_nets, op, signed_ext)
+            };
+            out.truncate(result_width);
+            Ok(out)
         }
         Op::Mul => {
             let xs = synthesize_expr(ctx, x, current, result_width)?;
@@ -720,16 +777,34 @@ fn synth_binary(
             arith::multiply(ctx, &xs, &ys, result_width, signed)
         }
         Op::Div | Op::Rem => {
-            let xs = synthesize_expr(ctx, x, current, result_width)?;
-            let ys = synthesize_expr(ctx, y, current, result_width)?;
+            // Quotient and remainder depend on every operand bit: divide at the
+            // operands' own width when the target is narrower, then truncate.
+            let w = result_width
+                .max(natural_width(x, result_width))
+                .max(natural_width(y, result_width));
+            let xs = synthesize_expr(ctx, x, current, w)?;
+            let ys = synthesize_expr(ctx, y, current, w)?;
             let (quo, rem) = if signed {
-                arith::divide_signed(ctx, &xs, &ys, result_width)?
+                arith::divide_signed(ctx, &xs, &ys, w)?
             } else {
-                arith::divide_unsigned(ctx, &xs, &ys, result_width)?
+                arith::divide_unsigned(ctx, &xs, &ys, w)?
             };
-            Ok(if matches!(op, Op::Div) { quo } else { rem })
+            let mut out = if matches!(op, Op::Div) { quo } else { rem };
+            out.truncate(result_width);
+            Ok(out)
         }
-        Op::As => synthesize_expr(ctx, x, current, result_width),
+        Op::As => {
+            // `x as N` truncates / extends to N bits before the context widens it.
+            match try_constant(y).map(|n| n as usize) {
+                Some(n) if n > 0 && n < result_width => {
+                    let w = n.max(natural_width(x, n));
+                    let inner = synthesize_expr(ctx, x, current, w)?;
+                    let cast = resize(inner, n, expr_signed(x));
+                    Ok(resize(cast, result_width, expr_signed(x)))
+                }
+                _ => synthesize_expr(ctx, x, current, result_width),
+            }
+        }
         Op::EqWildcard | Op::NeWildcard => {
             let w = x
                 .comptime()
